@@ -202,6 +202,9 @@ def _annotation(fi: FuncInfo, name: str):
 
 def _check_handler(run: Run, ctx, m, cls, h: FuncInfo) -> None:
     """h(self, v, s): projection out of a literal v by selector s."""
+    from ..lib import view as _view_h
+
+    h = _view_h(m, h)  # a handler may hand its two arguments on to a shared private helper: read that in place
     fa = ctx.analysis(h)
     vp, sp = ("param", h.pos_params[-2]), ("param", h.pos_params[-1])  # (self,) value, selector
     sval = ("attr", sp, "value")
